@@ -625,6 +625,20 @@ func (r *vRun) setAssoc(side int, a *Association) {
 	r.mu.Unlock()
 }
 
+func (r *vRun) assocStreams(side int) map[uint16]*Stream {
+	a := r.assoc(side)
+	out := map[uint16]*Stream{}
+	if a == nil {
+		return out
+	}
+	a.lock.RLock()
+	for k, v := range a.streams {
+		out[k] = v
+	}
+	a.lock.RUnlock()
+	return out
+}
+
 // settle: let every goroutine of the run reach its next blocking point
 func (r *vRun) settle() {
 	if r.native {
@@ -900,6 +914,7 @@ func (r *vRun) reader(side int, s *Stream, wg *sync.WaitGroup, bufSize int) {
 		bufSize = 1 + ar.n(64)
 	}
 	buf := make([]byte, bufSize)
+	ndl := 0
 	for {
 		if api && ar.chance(40) {
 			_ = s.SetReadDeadline(time.Now().Add(time.Duration(ar.pick(0, 1, 1000, 200000, 5000000)) * time.Microsecond))
@@ -915,7 +930,19 @@ func (r *vRun) reader(side int, s *Stream, wg *sync.WaitGroup, bufSize int) {
 				}
 				continue
 			}
-			if api && errors.Is(err, os.ErrDeadlineExceeded) {
+			// the stream's own sentinel: after a local Abort() the close error is the TRANSPORT's deadline error (Abort
+			// forces the read loop out with SetReadDeadline(now)), which also is an os.ErrDeadlineExceeded
+			if api && errors.Is(err, ErrReadDeadlineExceeded) {
+				ndl++
+				if ndl > 5000 {
+					// an application that keeps polling with deadlines on a stream nobody will ever write to again
+					s.lock.RLock()
+					re, rc := s.readErr, s.readTimeoutCancel != nil
+					s.lock.RUnlock()
+					_, reg := r.assocStreams(side)[s.StreamIdentifier()]
+					r.logf("e2e readerspin %d %d -> readErr=%v cancel=%v registered=%v", side, s.StreamIdentifier(), re, rc, reg)
+					return
+				}
 				r.logf("e2e rerr %d %d -> deadline", side, s.StreamIdentifier())
 				// the application does something else for a while before it comes back to read again
 				time.Sleep(time.Duration(ar.pick(0, 1000, 50000, 400000, 2000000)) * time.Microsecond)
